@@ -210,4 +210,8 @@ theorem unpack_value_packages (t : State) (buf : Bytes) (h24 : ¬ buf.length < 2
     · intro hv; cases hv
     · intro _; rfl
 
+/-- a successful loop step stood on an acceptable package and advanced by `pkgAdvance` -/
+theorem decPkg_walk_step (rem : Bytes) (x : Pkg) (n : Nat) (h : decPkg rem = .ok (x, n)) :
+    PkgOk rem ∧ n = pkgAdvance rem := decPkg_rej rem x n h
+
 end Acra.Lemmas.iNET
